@@ -831,6 +831,26 @@ func binop(p *Path, op token.Token, t types.Type, x, y value) value {
 func (p *Path) eqnil(t types.Type, x, y value) bool {
 	switch t.Underlying().(type) {
 	case *types.Map, *types.Signature, *types.Slice:
+		// slots of a backing array beyond every length ever used hold the
+		// interpreter's untyped nil: the zero value of the element type
+		isNil := func(v value) bool {
+			switch v := v.(type) {
+			case nil:
+				return true
+			case *omap:
+				return v == nil
+			case *ssa.Function:
+				return v == nil
+			case *closure:
+				return v == nil
+			case []value:
+				return v == nil
+			}
+			return false
+		}
+		if x == nil || y == nil {
+			return isNil(x) == isNil(y)
+		}
 		switch x := x.(type) {
 		case *omap:
 			return (x != nil) == (y.(*omap) != nil)
